@@ -19,6 +19,22 @@ def norm(e, clone_transparent=False):
         if len(e[2]) == 1 and (is_ident_call(e[1]) and (clone_transparent or not e[1].endswith('clone'))):
             return norm(e[2][0], clone_transparent)
         return ('call', e[1], tuple(norm(a, clone_transparent) for a in e[2]))
+    if t == 'fld' and isinstance(e[1], tuple) and e[1] and e[1][0] == 'down' and str(e[2]) == '0':
+        inner = norm(e[1][1], clone_transparent)
+        var = e[1][2]
+        # (Some(v) as Some).0 = v ;  (Ok(v) as Ok).0 = v
+        if inner[0] == 'agg' and isinstance(inner[1], tuple) and inner[1][0] == 'adt' and inner[1][2] == var and len(inner[2]) == 1:
+            return norm(inner[2][0], clone_transparent)
+        # `x?` : (Try::branch(r) as Continue).0 is the success payload of r
+        if var == 'Continue' and inner[0] == 'call' and inner[1].endswith('Try::branch') and len(inner[2]) == 1:
+            r = inner[2][0]
+            if r[0] == 'call' and r[1].endswith(('Option::ok_or_else', 'Option::ok_or')) and r[2]:
+                return norm(('fld', ('down', r[2][0], 'Some'), '0'), clone_transparent)
+            if r[0] == 'call' and r[1].endswith('Result::map_err') and r[2]:
+                return norm(('fld', ('down', r[2][0], 'Ok'), '0'), clone_transparent)
+            if r[0] == 'agg' and isinstance(r[1], tuple) and r[1][0] == 'adt' and r[1][2] in ('Ok', 'Some') and len(r[2]) == 1:
+                return norm(r[2][0], clone_transparent)
+        return ('fld', ('down', inner, var), e[2])
     if t == 'ite':
         c, a, b = norm(e[1], clone_transparent), norm(e[2], clone_transparent), norm(e[3], clone_transparent)
         # if x < y { x } else { y }  and friends: the minimum / maximum of the two operands
